@@ -88,6 +88,7 @@ type PairOpts struct {
 	PickBA   func([][]byte) int
 	Chunk    func(n int) int // stream API: chunk size chooser for writes (nil = whole)
 	NoLinkHooks bool
+	LinkDeadlineB time.Duration // > 0: side B's link context ends by DEADLINE after this long (instead of living until cancelled)
 }
 
 type Pair[T any] struct {
@@ -177,6 +178,9 @@ func (p *Pair[T]) wrapCodec(side string) (func(v any) (T, error), func(data T, v
 func (p *Pair[T]) link(a, b *Side[T]) error {
 	a.Ctx, a.Cancel = context.WithCancel(context.Background())
 	b.Ctx, b.Cancel = context.WithCancel(context.Background())
+	if p.Opts.LinkDeadlineB > 0 {
+		b.Ctx, b.Cancel = context.WithTimeout(context.Background(), p.Opts.LinkDeadlineB)
+	}
 	plan := p.Opts.Plan
 	switch p.Opts.API {
 	case "message":
